@@ -197,7 +197,8 @@ def programs(tier, seed):
         amacros = ["try_join_async"]
         sprofs = [((1, 1), 1, False)]
     else:
-        aprofs = [((1, 1), 2, False), ((1, 1, 1), 2, True), ((2, 1), 1, False), ((1, 2), 1, False), ((2, 2), 1, True), ((2, 1, 2), 1, True)]
+        # (two branches with a pending later step each exceed the 12 GB cap: measured)
+        aprofs = [((1, 1), 2, False), ((1, 1, 1), 2, True), ((2, 1), 1, True), ((1, 2), 1, True), ((2, 1, 1), 1, True), ((1, 1, 2), 1, True)]
         amacros = ["try_join_async"]
         sprofs = [((1, 1), 1, False), ((1, 1, 1), 1, True), ((1, 2), 1, True)]
     for macro in amacros:
